@@ -895,3 +895,33 @@ Theorem dict_roundtrip_filter_none (g : generics) (c : conv) (u : universe) (cl 
   d1_value g FFilterNone c u (S (vdepth (VObj cl fs))) (VObj cl fs) = true ->
   exists j, encode g FFilterNone false c u (VObj cl fs) = Ok j /\ decode g c u cl false j = Ok (VObj cl fs).
 Proof. apply dict_roundtrip_factory. Qed.
+
+(* ---------------------------------------------------------------- list-of-models documents *)
+Lemma list_max_ge {A} (f : A -> nat) l x : In x l -> (f x <= list_max (map f l))%nat.
+Proof.
+  induction l as [|y l IH]; intros Hin; [contradiction|]. cbn [map]. unfold list_max in *. cbn [fold_right].
+  destruct Hin as [->|Hin]; [lia|]. pose proof (IH Hin). lia.
+Qed.
+
+Theorem dict_roundtrip_list (g : generics) (fac : dict_factory) (c : conv) (u : universe) (cl : cls) (l : list value) :
+  (forall o, In o l -> exists fs, o = VObj cl fs /\ d1_value g fac c u (S (vdepth o)) o = true) ->
+  exists j, encode g fac false c u (VList false l) = Ok j
+            /\ decode g c u cl true j = Ok (VList false l).
+Proof.
+  intros H. exists (JList false (map (jenc fac c u None) l)). split.
+  - unfold encode, encode_fuel. rewrite vdepth_list.
+    remember (6 * S (S (list_max (map vdepth l))))%nat as F eqn:EF.
+    destruct F as [|F]; [lia|]. cbn [erun].
+    rewrite (mapM_ok _ (jenc fac c u None) l); [reflexivity|].
+    intros o Hin. destruct (H o Hin) as [fs [-> Hd]].
+    destruct F as [|F]; [lia|]. cbn [erun].
+    apply (enc_obj g fac c u (S (vdepth (VObj cl fs)))); [|exact Hd].
+    pose proof (list_max_ge vdepth l _ Hin). lia.
+  - unfold decode.
+    rewrite (mapM_map_ok _ (jenc fac c u None) l); [reflexivity|].
+    intros o Hin. destruct (H o Hin) as [fs [-> Hd]].
+    apply (dec_obj g fac c u false (S (vdepth (VObj cl fs)))); [|exact Hd].
+    unfold decode_fuel. rewrite jdepth_list, map_map.
+    pose proof (depth_obj g fac c u _ _ Hd).
+    pose proof (list_max_ge (fun x => jdepth (jenc fac c u None x)) l _ Hin). lia.
+Qed.
